@@ -187,3 +187,159 @@ Proof.
   cbn. unfold missing_at, getq, below, obs in *. destruct (nth i xs None), (nth i cv None); cbn; try reflexivity;
     unfold Qleb, Qltb; repeat match goal with |- context [Qle_bool ?a ?b] => destruct (Qle_bool a b) end; reflexivity.
 Qed.
+
+(* ------------------------------------------------------------------ axds.valid_range_test *)
+
+Definition qbool (b : bool) : option Q := Some (if b then 1 else 0).
+
+Definition env_valid (lo hi : option Q) (si ei : bool) (xs : list obs) : env :=
+  {| e_arr := bind_arr [("inp", xs)];
+     e_num := bind_num [("valid_span.0", lo); ("valid_span.1", hi); ("True", Some 1); ("False", Some 0);
+                        ("start_inclusive", qbool si); ("end_inclusive", qbool ei)];
+     e_size := length xs |}.
+
+Theorem skel_valid lo hi si ei xs :
+  valid_model lo hi si ei xs =
+  Flags (run_steps (env_valid lo hi si ei xs) skel_valid_range_test (all_flags (length xs) GOOD)).
+Proof.
+  unfold valid_model. f_equal. unfold skel_valid_range_test, all_flags. steps.
+  destruct lo as [l|], hi as [h|], si, ei; eval_guards; cbn [e_size env_valid];
+    rewrite !set_where_tab; apply tab_ext; intros i _;
+    cbn; unfold missing_at, below, above, getq; destruct (nth i xs None) as [v|]; cbn; try reflexivity;
+    unfold Qleb, Qltb; repeat match goal with |- context [Qle_bool ?a ?b] => destruct (Qle_bool a b) end; reflexivity.
+Qed.
+
+(* ------------------------------------------------------------------ argo.speed_test *)
+
+Lemma size_lt_guard en a k :
+  eval_g en (SCmp "<" (SAttr (SName a) "size") (SNum (inject_Z (Z.of_nat k)))) = Nat.ltb (e_size en) k.
+Proof.
+  assert (E : eval_g en (SCmp "<" (SAttr (SName a) "size") (SNum (inject_Z (Z.of_nat k))))
+              = negb (Z.of_nat k <=? Z.of_nat (e_size en))%Z).
+  { cbn. unfold cmp_q. cbn. unfold Qltb, Qle_bool. cbn. rewrite !Z.mul_1_r. reflexivity. }
+  rewrite E. destruct (Nat.ltb_spec (e_size en) k) as [H|H].
+  - apply negb_true_iff. apply Z.leb_gt. lia.
+  - apply negb_false_iff. apply Z.leb_le. lia.
+Qed.
+
+Section Speed.
+  Variable geod : Q -> Q -> Q -> Q -> Q.
+
+  Definition speed_arr (lon lat : list obs) (ts : list Z) : list obs :=
+    tab (length lon) (fun i => if Nat.eqb i 0 then Some 0
+                               else option_map (fun d => qabs (d / dsecs ts i)) (getq (speed_dist geod lon lat) i)).
+
+  Definition env_speed (st ft : Q) (lon lat : list obs) (ts : list Z) : env :=
+    {| e_arr := bind_arr [("lon", lon); ("lat", lat); ("dist", speed_dist geod lon lat); ("speed", speed_arr lon lat ts)];
+       e_num := bind_num [("suspect_threshold", Some st); ("fail_threshold", Some ft)];
+       e_size := length lon |}.
+
+  Theorem skel_speed st ft lon lat ts :
+    length lon = length lat -> length lon = length ts -> lon <> [] ->
+    speed_model geod st ft lon lat ts =
+    Flags (run_steps (env_speed st ft lon lat ts) skel_speed_test (all_flags (length lon) GOOD)).
+  Proof.
+    intros Hl Ht Hne. unfold speed_model. rewrite <- Hl, <- Ht, Nat.eqb_refl. cbn [andb negb].
+    assert (Hn0 : Nat.eqb (length lon) 0 = false) by (destruct lon; [congruence|reflexivity]).
+    rewrite Hn0.
+    unfold skel_speed_test, all_flags. steps.
+    change (SNum (2 # 1)) with (SNum (inject_Z (Z.of_nat 2))).
+    unfold guards_hold, forallb. rewrite !eval_g_inv, !size_eq0_guard, !size_lt_guard, !andb_true_r.
+    cbn [e_size env_speed]. rewrite Hn0. cbn [negb andb].
+    assert (P0 : py_index (length lon) 0 = 0%nat) by reflexivity. rewrite P0.
+    destruct (Nat.ltb (length lon) 2); cbn [negb]; [reflexivity|].
+    f_equal.
+  Qed.
+End Speed.
+
+(* ------------------------------------------------------------------ density_inversion_test *)
+From IoosQc Require Import Density.
+
+Lemma where_guard (b : bool) n c v (f : nat -> flag) :
+  (b = false -> forall i, (i < n)%nat -> c i = false) ->
+  (if b then set_where (tab n c) v (tab n f) else tab n f) = tab n (fun i => if c i then v else f i).
+Proof.
+  intros H. destruct b; [apply set_where_tab|].
+  apply tab_ext. intros i Hi. rewrite (H eq_refl i Hi). reflexivity.
+Qed.
+
+Lemma any_false en c :
+  eval_g en (SCall "any" c) = false -> forall i, (i < e_size en)%nat -> eval_b en c i = false.
+Proof.
+  intros H i Hi. change (existsb (eval_b en c) (seq 0 (e_size en)) = false) in H.
+  destruct (eval_b en c i) eqn:E; [|reflexivity].
+  assert (X : existsb (eval_b en c) (seq 0 (e_size en)) = true).
+  { apply existsb_exists. exists i. split; [apply in_seq; lia|exact E]. }
+  congruence.
+Qed.
+
+Definition env_density (st ft : option Q) (rho z : list obs) : env :=
+  {| e_arr := bind_arr [("inp", rho); ("zinp", z); ("delta", density_delta rho z)];
+     e_num := bind_num [("suspect_threshold", st); ("fail_threshold", ft); ("True", Some 1)];
+     e_size := length rho |}.
+
+Theorem skel_density st ft rho z :
+  length rho = length z -> rho <> [] ->
+  density_model st ft rho z =
+  Flags (run_steps (env_density st ft rho z) skel_density_inversion_test (all_flags (length rho) GOOD)).
+Proof.
+  intros Hl Hne. unfold density_model. rewrite <- Hl, Nat.eqb_refl. cbn [negb].
+  assert (Hn0 : Nat.eqb (length rho) 0 = false) by (destruct rho; [congruence|reflexivity]).
+  rewrite Hn0.
+  unfold skel_density_inversion_test. steps.
+  change (SNum (2 # 1)) with (SNum (inject_Z (Z.of_nat 2))).
+  unfold guards_hold, forallb. rewrite !eval_g_inv, !size_eq0_guard, !size_lt_guard, !andb_true_r.
+  cbn [e_size env_density]. rewrite Hn0. cbn [negb andb].
+  assert (P0 : py_index (length rho) 0 = 0%nat) by reflexivity. rewrite P0.
+  destruct (Nat.ltb (length rho) 2) eqn:H2; cbn [negb andb]; [reflexivity|].
+  apply Nat.ltb_ge in H2.
+  f_equal.
+  set (en := env_density st ft rho z).
+  set (cS := SCmp "<" (SName "delta") (SName "suspect_threshold")).
+  set (cF := SCmp "<" (SName "delta") (SName "fail_threshold")).
+  pose proof (any_false en cS) as AS. pose proof (any_false en cF) as AF.
+  assert (ES : forall i, eval_b en (SCmp "==" cS (SName "True")) i = below_thr st (getq (density_delta rho z) i)).
+  { intros i. cbn. unfold getq. destruct (nth i (density_delta rho z) None), st; reflexivity. }
+  assert (EF : forall i, eval_b en (SCmp "==" cF (SName "True")) i = below_thr ft (getq (density_delta rho z) i)).
+  { intros i. cbn. unfold getq. destruct (nth i (density_delta rho z) None), ft; reflexivity. }
+  assert (ES' : forall i, eval_b en cS i = below_thr st (getq (density_delta rho z) i)).
+  { intros i. cbn. unfold getq. destruct (nth i (density_delta rho z) None), st; reflexivity. }
+  assert (EF' : forall i, eval_b en cF i = below_thr ft (getq (density_delta rho z) i)).
+  { intros i. cbn. unfold getq. destruct (nth i (density_delta rho z) None), ft; reflexivity. }
+  assert (GS : eval_g en (SCmp "isnot" (SName "suspect_threshold") SNone) = is_some st) by (destruct st; reflexivity).
+  assert (GF : eval_g en (SCmp "isnot" (SName "fail_threshold") SNone) = is_some ft) by (destruct ft; reflexivity).
+  rewrite GS, GF. cbn [e_size en env_density].
+  unfold all_flags.
+  assert (EM : forall i, eval_b en (SBin "|" (SAttr (SName "inp") "mask") (SAttr (SName "zinp") "mask")) i
+                         = rec_missing rho z i) by reflexivity.
+  assert (SS : is_some st && eval_g en (SCall "any" cS) = false ->
+               forall i, (i < length rho)%nat -> below_thr st (getq (density_delta rho z) i) = false).
+  { intros H i Hi. destruct st as [t|]; [|reflexivity]. cbn [is_some andb] in H. rewrite <- ES'. apply (AS H). exact Hi. }
+  assert (SF : is_some ft && eval_g en (SCall "any" cF) = false ->
+               forall i, (i < length rho)%nat -> below_thr ft (getq (density_delta rho z) i) = false).
+  { intros H i Hi. destruct ft as [t|]; [|reflexivity]. cbn [is_some andb] in H. rewrite <- EF'. apply (AF H). exact Hi. }
+  rewrite where_guard by (intros H i Hi; rewrite ES, (SS H i Hi); apply andb_false_r).
+  rewrite where_guard by (intros H i Hi; rewrite ES; destruct i as [|i]; [reflexivity|];
+                          rewrite (SS H (S i - 1)%nat) by lia; apply andb_false_r).
+  rewrite where_guard by (intros H i Hi; rewrite EF, (SF H i Hi); apply andb_false_r).
+  rewrite where_guard by (intros H i Hi; rewrite EF; destruct i as [|i]; [reflexivity|];
+                          rewrite (SF H (S i - 1)%nat) by lia; apply andb_false_r).
+  rewrite !set_where_tab.
+  apply tab_ext. intros i Hi.
+  assert (EM1 : eval_b en (SSl false (SBin "|" (SAttr (SName "inp") "mask") (SAttr (SName "zinp") "mask"))) (i - 1)
+                = (Nat.ltb (S (i - 1)) (length rho) && rec_missing rho z (i - 1))%bool) by reflexivity.
+  rewrite EM1, EM, !ES, !EF.
+  destruct i as [|i]; cbn [Nat.eqb negb andb].
+  - assert (L1 : Nat.ltb 1 (length rho) = true) by (apply Nat.ltb_lt; lia).
+    rewrite L1. reflexivity.
+  - replace (S i - 1)%nat with i by lia.
+    assert (L1 : Nat.ltb (S i) (length rho) = true) by (apply Nat.ltb_lt; lia).
+    rewrite L1. cbn [andb].
+    destruct (Nat.ltb (S (S i)) (length rho)) eqn:L2; cbn [andb].
+    + reflexivity.
+    + (* the last point: delta has no entry there *)
+      apply Nat.ltb_ge in L2.
+      assert (D : getq (density_delta rho z) (S i) = None).
+      { unfold getq, density_delta. apply nth_overflow. rewrite tab_length. lia. }
+      rewrite D. destruct st, ft; reflexivity.
+Qed.
